@@ -89,10 +89,13 @@ structure Mv (s s' : PState) : Prop where
   size : s'.tree.pool.size = s.tree.pool.size
   live : ∀ x, live s'.tree x = live s.tree x
   handle : s'.tableHandle = s.tableHandle
+  /-- the reader and the two stacks are not touched by the tree passes -/
+  rs : s'.r = s.r ∧ s'.scopeStack = s.scopeStack ∧ s'.pkgEndStack = s.pkgEndStack ∧ s'.streamEnd = s.streamEnd
 
-theorem Mv.refl (s : PState) : Mv s s := ⟨rfl, fun _ => rfl, rfl⟩
+theorem Mv.refl (s : PState) : Mv s s := ⟨rfl, fun _ => rfl, rfl, rfl, rfl, rfl, rfl⟩
 theorem Mv.trans {a b c : PState} (h1 : Mv a b) (h2 : Mv b c) : Mv a c :=
-  ⟨by rw [h2.size, h1.size], fun x => by rw [h2.live, h1.live], by rw [h2.handle, h1.handle]⟩
+  ⟨by rw [h2.size, h1.size], fun x => by rw [h2.live, h1.live], by rw [h2.handle, h1.handle],
+   by rw [h2.rs.1, h1.rs.1], by rw [h2.rs.2.1, h1.rs.2.1], by rw [h2.rs.2.2.1, h1.rs.2.2.1], by rw [h2.rs.2.2.2, h1.rs.2.2.2]⟩
 
 theorem getObj_live {s : PState} {i : Nat} (h : live s.tree i = true) : getObj i s = .ok (slot s.tree i, s) :=
   getObj_ex (live_lt h)
@@ -171,7 +174,7 @@ theorem detach_step' {s : PState} (h : TP s) {obj arg : Nat} (ho : live s.tree o
     exact ⟨⟨ho, ha⟩, hp⟩
   obtain ⟨t', e, w', hsz, hlive, _, hP, _, hNx, hFi, hLa⟩ := detach_wf h.wf hpre
   have sp := detach_samePay e
-  exact ⟨_, tree_ex e, h.ofTree w' hlive sp, ⟨hsz, hlive, rfl⟩, rfl, sp, hP, hNx, hLa, hFi⟩
+  exact ⟨_, tree_ex e, h.ofTree w' hlive sp, ⟨hsz, hlive, rfl, rfl, rfl, rfl, rfl⟩, rfl, sp, hP, hNx, hLa, hFi⟩
 
 /-- `append(obj, arg)` under its contract -/
 theorem append_step' {s : PState} (h : TP s) {obj arg : Nat} (hpre : appendPre s.tree obj arg = true) :
@@ -182,7 +185,7 @@ theorem append_step' {s : PState} (h : TP s) {obj arg : Nat} (hpre : appendPre s
       (∀ x, Fi s1.tree x = if x = obj ∧ La s.tree obj = INV then arg else Fi s.tree x) := by
   obtain ⟨t', e, w', hsz, hlive, _, hP, _, hNx, hFi, _⟩ := append_wf h.wf hpre
   have sp := append_samePay e
-  exact ⟨_, tree_ex e, h.ofTree w' hlive sp, ⟨hsz, hlive, rfl⟩, rfl, sp, hP, hNx, hFi⟩
+  exact ⟨_, tree_ex e, h.ofTree w' hlive sp, ⟨hsz, hlive, rfl, rfl, rfl, rfl, rfl⟩, rfl, sp, hP, hNx, hFi⟩
 
 /-- the ancestor walk only looks at parents of nodes other than the one searched for -/
 theorem isAnc_congr {t t' : ObjectTree} (a : Nat) (hP : ∀ x, x ≠ a → C13.P t' x = C13.P t x) :
@@ -485,7 +488,7 @@ theorem updObj_tp {s : PState} (h : TP s) {i : Nat} (hi : live s.tree i = true) 
     ∃ s1, updObj i f s = .ok ((), s1) ∧ TP s1 ∧ Mv s s1 ∧ SameLinks s.tree s1.tree := by
   have hlt := live_lt hi
   have sl := sameLinks_setAt s.tree i f hf hl
-  refine ⟨_, updObj_ex f hlt, ⟨wf_of_sameLinks h.wf sl, ?_, ?_⟩, ⟨sl.size, sl.live, rfl⟩, sl⟩
+  refine ⟨_, updObj_ex f hlt, ⟨wf_of_sameLinks h.wf sl, ?_, ?_⟩, ⟨sl.size, sl.live, rfl, rfl, rfl, rfl, rfl⟩, sl⟩
   · show live (setAt s.tree i f) 0 = true
     rw [sl.live]; exact h.root
   · intro x hx
@@ -831,13 +834,14 @@ theorem relocateOne_np (d : Bytes) (fuel : Nat) {s : PState} (h : TP s) {obj : N
         have e6 : (modify fun s => { s with relocatedObjects := u32 (s.relocatedObjects + 1) } : P Unit) s5 =
             .ok ((), { s5 with relocatedObjects := u32 (s5.relocatedObjects + 1) }) := rfl
         refine NPs.step e6 ?_
-        refine NPs.pure ⟨⟨h5.wf, h5.root, h5.info⟩, ⟨?_, ?_, ?_⟩, ?_⟩
+        refine NPs.pure ⟨⟨h5.wf, h5.root, h5.info⟩, ⟨?_, ?_, ?_, ?_⟩, ?_⟩
         · show s5.tree.pool.size = _
           rw [m5.size, m4.size, m3.size]
         · intro x; show live s5.tree x = _
           rw [m5.live, m4.live, m3.live]
         · show s5.tableHandle = _
           rw [m5.handle, m4.handle, m3.handle]
+        · exact ((m3.trans m4).trans m5).rs
         · intro x hx
           show C13.P s5.tree x ≠ INV
           rw [sl5.p, hP4]
@@ -888,6 +892,7 @@ theorem relocate_np (d : Bytes) : ∀ (f : Nat),
       refine NPs.step (optP_ex fl s) ?_
       -- the counter reset does not touch the tree
       have cont : ∀ s0 : PState, s0.tree = s.tree → s0.tableHandle = s.tableHandle →
+          (s0.r = s.r ∧ s0.scopeStack = s.scopeStack ∧ s0.pkgEndStack = s.pkgEndStack ∧ s0.streamEnd = s.streamEnd) →
           NPs (if hasFlag fl flagExecutable = true then pure PRes.ok
             else do
               let __do_lift ← tableHandle
@@ -901,9 +906,9 @@ theorem relocate_np (d : Bytes) : ∀ (f : Nat),
                       relocateLoop d f __do_lift.firstArgIndex PRes.ok
                 else relocateLoop d f (slot s.tree objIndex).firstArgIndex PRes.ok) s0
             (fun _ s' => TP s' ∧ Mv s s' ∧ KeepAtt s s') := by
-        intro s0 ht0 hh0
+        intro s0 ht0 hh0 hrs0
         have h0 : TP s0 := ⟨by rw [ht0]; exact h.wf, by rw [ht0]; exact h.root, by rw [ht0]; exact h.info⟩
-        have m0 : Mv s s0 := ⟨by rw [ht0], fun x => by rw [ht0], hh0⟩
+        have m0 : Mv s s0 := ⟨by rw [ht0], fun x => by rw [ht0], hh0, hrs0⟩
         have k0 : KeepAtt s s0 := fun x hx => by rw [ht0]; exact hx
         have ho0 : live s0.tree objIndex = true := by rw [ht0]; exact ho
         have kids : ∀ {s1 : PState}, TP s1 → live s1.tree objIndex = true →
@@ -947,9 +952,9 @@ theorem relocate_np (d : Bytes) : ∀ (f : Nat),
       by_cases h00 : objIndex = 0
       · rw [if_pos h00]
         refine NPs.step (s1 := { s with relocatedObjects := 0 }) (a := ()) rfl ?_
-        exact cont _ rfl rfl
+        exact cont _ rfl rfl ⟨rfl, rfl, rfl, rfl⟩
       · rw [if_neg h00]
-        exact cont s rfl rfl
+        exact cont s rfl rfl ⟨rfl, rfl, rfl, rfl⟩
     · intro s sib res h hsib
       unfold relocateLoop
       by_cases h0 : sib = invalidIndex
